@@ -40,7 +40,7 @@ CHUNKS = [256, 4096, 1024 ** 2]
 
 
 def plan(tier, seed):
-    n = 480 if tier == "quick" else 24000
+    n = 480 if tier == "quick" else 12000
     k = 16
     per = n // k
     shards = [{"kind": "random", "cases": {"start": i * per, "stop": (i + 1) * per}}
